@@ -53,6 +53,35 @@ pub fn instr(c: &ByteCode, blocks: &mut Vec<J>) -> J {
 }
 
 // ---------------------------------------------------------------------------------------------
+// bytecode with nested blocks carried inline (VM.tla's BlockOf accepts both encodings), and
+// identifiers with their code points so that map fields can be looked up
+
+pub fn value_inline(v: &CelValue) -> J {
+    match v {
+        CelValue::Ident(n) => json!({"t":"ident","n":n,"fc":cps(n)}),
+        CelValue::ByteCode(bc) => {
+            let inner: Vec<ByteCode> = bc.iter().cloned().collect();
+            json!({"t":"code","c":code_inline(&inner)})
+        }
+        other => project(other).to_json(),
+    }
+}
+
+pub fn code_inline(code: &[ByteCode]) -> J {
+    J::Array(
+        code.iter()
+            .map(|c| match c {
+                ByteCode::Push(v) => json!({"op":"PUSH","v":value_inline(v)}),
+                other => {
+                    let mut sink = Vec::new();
+                    instr(other, &mut sink)
+                }
+            })
+            .collect(),
+    )
+}
+
+// ---------------------------------------------------------------------------------------------
 // syntax tree with spans
 
 fn sp(r: SourceRange) -> J {
